@@ -56,6 +56,7 @@ ValQE(f, v, nativeCidr) ==     \* [st |-> "ok"|"fail"|"unspec", e |-> QExpr]
       [] v.t = "cmp" -> ok(QLeaf(MkAtom(f, "cmp", ReduceFrac(v.num[1], v.num[2]), v.s \o <<47>>)))
       [] v.t = "tspart" -> ok(QLeaf(MkAtom(f, "ts", ReduceFrac(v.num[1], v.num[2]), v.s)))
       [] v.t = "fieldref" -> ok(QLeaf(MkAtom(f, "fref", v.s, v.flags)))
+      [] v.t = "qexpr" -> (IF f = <<>> THEN [st |-> "unspec", e |-> QTrue] ELSE ok(QLeaf(MkAtom(f, "qx", v.s, <<>>))))
       [] v.t = "exp" ->
            (LET rs == [k \in 1..Len(v.vals) |-> ValQE(f, v.vals[k], nativeCidr)] IN
             IF \E k \in 1..Len(rs) : rs[k].st = "fail" THEN [st |-> "fail", e |-> QTrue]
@@ -66,28 +67,41 @@ ValQE(f, v, nativeCidr) ==     \* [st |-> "ok"|"fail"|"unspec", e |-> QExpr]
 Worst(sts) == IF \E k \in 1..Len(sts) : sts[k] = "fail" THEN "fail"
               ELSE IF \E k \in 1..Len(sts) : sts[k] = "unspec" THEN "unspec" ELSE "ok"
 
-ItemQE(item, nativeCidr) ==
+\* Rw(field, value) is a hook through which a processing pipeline rewrites every value after the
+\* modifiers were applied: it returns [st |-> "ok"|"fail"|"unspec", vals |-> Seq(value)] (one value may
+\* become several, which are OR-linked among themselves).
+IdRw(f, v) == [st |-> "ok", vals |-> <<v>>]
+
+ItemQEx(item, nativeCidr, Rw(_, _)) ==
     LET r == Apply(item.vals, item.chain, item.field # <<>>) IN
     IF r.status = "reject" THEN [st |-> "fail", e |-> QTrue]
     ELSE IF r.status = "unspec" \/ r.vals = <<>> THEN [st |-> "unspec", e |-> QTrue]
-    ELSE LET rs == [k \in 1..Len(r.vals) |-> ValQE(item.field, r.vals[k], nativeCidr)]
+    ELSE LET rw == [k \in 1..Len(r.vals) |-> Rw(item.field, r.vals[k])]
+             one(k) ==      \* the k-th original value after rewriting: an OR group if it fanned out
+                 LET vs == rw[k].vals
+                     es == [j \in 1..Len(vs) |-> ValQE(item.field, vs[j], nativeCidr)]
+                 IN  [st |-> Worst(<<rw[k].st>> \o [j \in 1..Len(es) |-> es[j].st]),
+                      e |-> IF Len(es) = 1 THEN es[1].e ELSE QOr([j \in 1..Len(es) |-> es[j].e])]
+             rs == [k \in 1..Len(r.vals) |-> one(k)]
              args == [k \in 1..Len(rs) |-> rs[k].e]
              linked == IF Len(args) = 1 THEN args[1] ELSE IF r.linking = "and" THEN QAnd(args) ELSE QOr(args)
          IN  [st |-> Worst([k \in 1..Len(rs) |-> rs[k].st]), e |-> IF r.negated THEN QNot(linked) ELSE linked]
+ItemQE(item, nativeCidr) == ItemQEx(item, nativeCidr, IdRw)
 
-MapQE(items, nativeCidr) ==
-    LET rs == [k \in 1..Len(items) |-> ItemQE(items[k], nativeCidr)] IN
+MapQEx(items, nativeCidr, Rw(_, _)) ==
+    LET rs == [k \in 1..Len(items) |-> ItemQEx(items[k], nativeCidr, Rw)] IN
     [st |-> Worst([k \in 1..Len(rs) |-> rs[k].st]),
      e |-> IF Len(rs) = 1 THEN rs[1].e ELSE QAnd([k \in 1..Len(rs) |-> rs[k].e])]
 
-BodyQE(body, nativeCidr) ==
-    CASE body.kind = "map" -> MapQE(body.items, nativeCidr)
+BodyQEx(body, nativeCidr, Rw(_, _)) ==
+    CASE body.kind = "map" -> MapQEx(body.items, nativeCidr, Rw)
       [] body.kind = "maps" ->
-           (LET rs == [k \in 1..Len(body.maps) |-> MapQE(body.maps[k], nativeCidr)] IN
+           (LET rs == [k \in 1..Len(body.maps) |-> MapQEx(body.maps[k], nativeCidr, Rw)] IN
             [st |-> Worst([k \in 1..Len(rs) |-> rs[k].st]),
              e |-> IF Len(rs) = 1 THEN rs[1].e ELSE QOr([k \in 1..Len(rs) |-> rs[k].e])])
       [] OTHER ->   \* keyword list
-           ItemQE([field |-> <<>>, chain |-> <<>>, vals |-> body.vals], nativeCidr)
+           ItemQEx([field |-> <<>>, chain |-> <<>>, vals |-> body.vals], nativeCidr, Rw)
+BodyQE(body, nativeCidr) == BodyQEx(body, nativeCidr, IdRw)
 
 \* substitute detections into the denotation of a condition
 RECURSIVE Subst(_, _)
@@ -98,13 +112,14 @@ Subst(b, des) ==
       [] OTHER -> [k |-> b.k, args |-> [j \in 1..Len(b.args) |-> Subst(b.args[j], des)]]
 
 \* meaning of condition number c of the document
-RuleDen(doc, c, nativeCidr) ==
+RuleDenX(doc, c, nativeCidr, Rw(_, _)) ==
     LET names == [k \in 1..Len(doc.dets) |-> doc.dets[k].name]
         d == Den(doc.conds[c], names)
         used == IF d.st = "ok" THEN AtomsOf(d.e) ELSE {}
-        bs == [k \in 1..Len(doc.dets) |-> IF k \in used THEN BodyQE(doc.dets[k].body, nativeCidr) ELSE [st |-> "ok", e |-> QTrue]]
+        bs == [k \in 1..Len(doc.dets) |-> IF k \in used THEN BodyQEx(doc.dets[k].body, nativeCidr, Rw) ELSE [st |-> "ok", e |-> QTrue]]
         \* a detection that cannot be loaded makes the whole rule fail, referenced or not
-        all == [k \in 1..Len(doc.dets) |-> BodyQE(doc.dets[k].body, nativeCidr).st]
+        all == [k \in 1..Len(doc.dets) |-> BodyQEx(doc.dets[k].body, nativeCidr, Rw).st]
     IN  IF d.st # "ok" THEN [st |-> IF d.st = "unspec" THEN "unspec" ELSE "fail", e |-> QTrue]
         ELSE [st |-> Worst(all), e |-> Subst(d.e, [k \in 1..Len(bs) |-> bs[k].e])]
+RuleDen(doc, c, nativeCidr) == RuleDenX(doc, c, nativeCidr, IdRw)
 =============================================================================
